@@ -3,6 +3,7 @@ package props
 import (
 	"fmt"
 	"sort"
+	"strings"
 
 	"go.flow.arcalot.io/pluginsdk/schema"
 
@@ -282,8 +283,123 @@ func c14NamespacedMembers(c *wk.Ctx) {
 	}
 }
 
+// c14LinkOrder: rings of 2..3 scopes that refer to each other across namespaces, whose objects have one property (so
+// that a non-map value is the shorthand for it) or two, entered through a root property with a non-map default, a map
+// default or none. The namespaces are applied in EVERY order on separate instances; what the linked scopes answer
+// (value, rejection, refusal to link) must not depend on the order in which they were linked.
+func c14LinkOrder(c *wk.Ctx) {
+	prop := func(t schema.Type, def *string) *schema.PropertySchema {
+		return schema.NewPropertySchema(t, nil, false, nil, nil, nil, def, nil)
+	}
+	sp := func(x string) *string { return &x }
+	defaults := []*string{nil, sp(`"foo"`), sp(`{}`), sp(`5`)}
+	inputs := []any{"foo", int64(5), map[string]any{}, map[string]any{"p": map[string]any{"only": map[string]any{"only": map[string]any{}}}},
+		map[string]any{"p": "foo"}, map[string]any{"p": map[string]any{"only": "foo"}}, nil, []any{}}
+	for ring := 2; ring <= 3; ring++ {
+		for single := 0; single < 1<<uint(ring); single++ { // bit i: object i has exactly one property
+			for di, def := range defaults {
+				ids := []string{"A", "B", "C"}[:ring]
+				nss := []string{"na", "nb", "nc"}[:ring]
+				build := func(order []string) (outcome []string) {
+					scopes := make([]*schema.ScopeSchema, ring)
+					for i := 0; i < ring; i++ {
+						next := (i + 1) % ring
+						props := map[string]*schema.PropertySchema{"only": prop(schema.NewNamespacedRefSchema(ids[next], nss[next], nil), nil)}
+						if single&(1<<uint(i)) == 0 {
+							props["n"] = prop(schema.NewIntSchema(nil, nil, nil), nil)
+						}
+						obj := schema.NewObjectSchema(ids[i], props)
+						if i == 0 {
+							root := schema.NewObjectSchema("Root", map[string]*schema.PropertySchema{"p": prop(schema.NewRefSchema("A", nil), def)})
+							scopes[i] = schema.NewScopeSchema(root, obj)
+						} else {
+							scopes[i] = schema.NewScopeSchema(obj)
+						}
+					}
+					for _, ns := range order {
+						for i := 0; i < ring; i++ {
+							if nss[(i+1)%ring] == ns {
+								c.Note(fmt.Sprintf("link order: ApplyNamespace %s (ring %d, single %b, default %d, order %v)", ns, ring, single, di, order))
+								if p, site, _, _ := wk.Guard(func() { scopes[i].ApplyNamespace(scopes[(i+1)%ring].Objects(), ns) }); p {
+									outcome = append(outcome, "link "+ns+": refused@"+site)
+								}
+							}
+						}
+					}
+					if len(outcome) > 0 {
+						// a ring that is refused is refused in every order, but which call refuses depends on the order
+						return []string{"refused to link"}
+					}
+					for si, sc := range scopes {
+						var verr error
+						if p, site, _, _ := wk.Guard(func() { verr = sc.ValidateReferences() }); p {
+							outcome = append(outcome, fmt.Sprintf("ValidateReferences[%d]: panic@%s", si, site))
+						} else {
+							outcome = append(outcome, fmt.Sprintf("ValidateReferences[%d]: %v", si, verr == nil))
+						}
+						targets := []schema.Type{sc}
+						if si == 0 {
+							targets = append(targets, sc.Objects()["A"])
+						}
+						for ti, t := range targets {
+							for ii, in := range inputs {
+								c.Note(fmt.Sprintf("link order: Unserialize input %d on scope %d/%d (ring %d, single %b, default %d, order %v)", ii, si, ti, ring, single, di, order))
+								c.Count("link_order_inputs")
+								var v any
+								var err error
+								p, site, _, _ := wk.Guard(func() { v, err = t.Unserialize(cmpx.DeepCopy(in)) })
+								switch {
+								case p:
+									outcome = append(outcome, fmt.Sprintf("[%d/%d] Unserialize(%s): panic@%s", si, ti, cmpx.Canon(in), site))
+								case err != nil:
+									outcome = append(outcome, fmt.Sprintf("[%d/%d] Unserialize(%s): error", si, ti, cmpx.Canon(in)))
+								default:
+									outcome = append(outcome, fmt.Sprintf("[%d/%d] Unserialize(%s): %s", si, ti, cmpx.Canon(in), cmpx.Canon(v)))
+								}
+							}
+						}
+					}
+					return outcome
+				}
+				var first []string
+				var firstOrder []string
+				for _, order := range permutations(nss) {
+					got := build(order)
+					c.Count("link_orders")
+					c.Eval(wk.Hash64("link-order", fmt.Sprint(ring, single, di, order)), true)
+					for _, o := range got {
+						if strings.Contains(o, "panic@") {
+							c.Violation("C14:panic:link-order:"+o[strings.Index(o, "panic@"):], "an operation on scopes linked in a ring panicked: "+o, map[string]any{"ring": ring, "single_property_objects": fmt.Sprintf("%b", single), "default": di, "order": order})
+							break
+						}
+					}
+					if first == nil {
+						first, firstOrder = got, order
+						continue
+					}
+					if fmt.Sprint(got) != fmt.Sprint(first) {
+						diff := ""
+						for k := range got {
+							if k >= len(first) || got[k] != first[k] {
+								diff = got[k]
+								if k < len(first) {
+									diff += " vs " + first[k]
+								}
+								break
+							}
+						}
+						c.Violation("C14:depends-on-link-order", fmt.Sprintf("scopes linked in the order %v answer differently from the same scopes linked in the order %v: %s", order, firstOrder, clipStr(diff, 300)),
+							map[string]any{"ring": ring, "single_property_objects": fmt.Sprintf("%b", single), "default": di, "order": order, "other_order": firstOrder, "difference": clipStr(diff, 600)})
+					}
+				}
+			}
+		}
+	}
+}
+
 func runC14(c *wk.Ctx) {
-	c.Meta("rule", "(a) generated non-recursive scope trees (nested scopes whose object IDs collide with outer ones, references under properties / lists / maps / one-ofs, 0..2 external namespaces, also external objects with the same ID as a local one) built through the constructors; the external namespaces are applied in EVERY order (all permutations) on separate instances; the same tree with every reference replaced by the object the harness' own lexical resolution finds (no references, no namespaces needed) is built as the comparison schema. Inputs: valid by construction, perturbed, with a property dropped. Oracle: identical accept/reject verdicts and equal unserialized values (and the reference interpreter's verdict), for every application order; before, between and after the ApplyNamespace calls ValidateReferences()==nil exactly when every reference enumerated through the public accessors reports ObjectReady(), and applying one namespace leaves the link state and target of references to other namespaces untouched. (b) the same for scopes rebuilt from their own description (UnserializeScope + ApplySelf). (c) recursive and mutually recursive scopes (hand-written shapes) on finite inputs of nesting depth 1..500 and on non-map values. distinct = hash(scope, namespaces, input); non-trivial = the tree has a nested scope or an external namespace (c) also: ValidateReferences()==nil exactly when every reference is ready, on the hand-written recursive scopes (struct-mapped ones included).")
+	c.Meta("rule", "(a) generated non-recursive scope trees (nested scopes whose object IDs collide with outer ones, references under properties / lists / maps / one-ofs, 0..2 external namespaces, also external objects with the same ID as a local one) built through the constructors; the external namespaces are applied in EVERY order (all permutations) on separate instances; the same tree with every reference replaced by the object the harness' own lexical resolution finds (no references, no namespaces needed) is built as the comparison schema. Inputs: valid by construction, perturbed, with a property dropped. Oracle: identical accept/reject verdicts and equal unserialized values (and the reference interpreter's verdict), for every application order; before, between and after the ApplyNamespace calls ValidateReferences()==nil exactly when every reference enumerated through the public accessors reports ObjectReady(), and applying one namespace leaves the link state and target of references to other namespaces untouched. (b) the same for scopes rebuilt from their own description (UnserializeScope + ApplySelf). (c) recursive and mutually recursive scopes (hand-written shapes) on finite inputs of nesting depth 1..500 and on non-map values. distinct = hash(scope, namespaces, input); non-trivial = the tree has a nested scope or an external namespace (c) also: ValidateReferences()==nil exactly when every reference is ready, on the hand-written recursive scopes (struct-mapped ones included). (d) rings of 2..3 scopes referring to each other across namespaces (objects with one property - the shorthand form - or two; root default non-map / map / none), linked in every order: identical outcomes for 8 inputs on every scope whatever the order.")
+	c.Floor("link_orders", 50)
 	c.Meta("assumptions", []string{"references directly under a one-of are only generated for the self namespace (the SDK inspects member properties while linking)",
 		"external namespace objects contain no references themselves"})
 	c.Floor("scopes", 300)
@@ -297,6 +413,10 @@ func runC14(c *wk.Ctx) {
 	if c.Mine(2) {
 		c.Begin(2, "one-of members that are references into other namespaces")
 		c14NamespacedMembers(c)
+	}
+	if c.Mine(3) {
+		c.Begin(3, "rings of scopes linked in every order")
+		c14LinkOrder(c)
 	}
 	if c.Mine(1) {
 		// default values that lead back to their own property only through a reference into another namespace: such a
